@@ -5,8 +5,7 @@ from ..rules import c19
 RULE = ("(a) every modular sampler (a `modulus` and an RNG parameter) reaches its successful return only through the passing "
         "edge of a branch on `candidate < modulus`, or forwards its modulus to one that does; (b) every "
         "try_random_bits_with_precision owns (or forwards to) a rejecting branch on bit_length, and on bits_precision for "
-        "fixed-width types; (c) Uint and BoxedUint implementations of one sampling method hand the RNG to the same core "
-        "routine(s)")
+        "fixed-width types")
 
 
 def run(tier, t0):
@@ -16,14 +15,12 @@ def run(tier, t0):
         c19.run(f, rep, cfg)
     rep.floor("modular_samplers", 5)
     rep.floor("bit_bounded_samplers", 3)
-    rep.floor("fixed_boxed_sampler_pairs", 3)
     return finish(rep, tier, t0,
-                  explanation="three structural necessary conditions of C19: a rejection sampler that can return without the "
+                  explanation="two structural necessary conditions of C19: a rejection sampler that can return without the "
                               "`< modulus` comparison (or through its failing edge) returns out-of-range values; a bit-bounded "
-                              "sampler without the length check does not fail when it must; fixed and boxed samplers that read "
-                              "the RNG in different routines need not consume the stream identically. Uniformity, the masks, "
-                              "which bytes are requested, and the values returned are runtime facts and are not decided; the "
-                              "random constructors of NonZero/Odd are instances under C12",
-                  assumptions=["`ct_lt` / `ct_gt` implement the mathematical order (C06, not decided there either)",
-                               "the shared core routines behave identically for both callers given equal arguments"],
+                              "sampler without the length check does not fail when it must. Uniformity, the masks, which bytes "
+                              "are requested, stream-consumption equality between fixed and boxed samplers, and the values "
+                              "returned are runtime facts and are not decided; the random constructors of NonZero/Odd are "
+                              "instances under C12",
+                  assumptions=["`ct_lt` / `ct_gt` implement the mathematical order (C06, not decided there either)"],
                   rule_text=RULE)
